@@ -7,3 +7,4 @@ import LicenseExpr.Props.C03
 #print axioms LE.C03_reject
 #print axioms LE.C03_bad_pair_rejected
 #print axioms LE.C03_unbalanced_rejected
+#print axioms LE.C03_position
